@@ -80,6 +80,16 @@ def run(ctx):
                     ctx.fail("oracle", "stateful(f): " + why, case=wcase)
                     noracle += 1
                     break
+    E.worker_init()
+    nprobe = len(dtype_probes())
+    for i in range(nprobe):
+        try:
+            why = dtype_probe(i)
+        except Exception as e:      # noqa: BLE001
+            why = f"{dtype_probes()[i][0]}: raised {type(e).__name__}: {str(e)[:160]}"
+        if why:
+            ctx.fail("oracle", "stateful(f) with a weakly typed scalar and a narrow array: " + why, case={"dtype_probe": i})
+    ctx.cov["dtype_probes"] = nprobe
     null = [m for m in metas if m["h"] == "null" and m["ok"]]
     ctx.cov["evaluations"] = len(terms)
     ctx.cov["traces_validated_against_impl"] = len(terms) - len(mism)
@@ -113,8 +123,52 @@ def oracle_case(case):
     return E.stateful_oracle(prog, vals, res)
 
 
+# ---- weakly typed scalars with narrow arrays: ordinary evaluation keeps the array's dtype (int8 wraps, float16 rounds);
+#      the interpreter must stage the function with the same weak types.  Direct oracle, no model (the model's values
+#      are unbounded integers); fixed programs, the replay is the probe's index.
+def dtype_probes():
+    import jax
+    import jax.numpy as jnp
+    i8 = jnp.array([100, 3, -70], dtype=jnp.int8)
+    u8 = jnp.array([200, 3, 7], dtype=jnp.uint8)
+    h = jnp.array([0.1, 1000.0, -3.3], dtype=jnp.float16)
+    c8 = jnp.array([90, -90, 5], dtype=jnp.int8)
+    return [
+        ("a * x, a a Python int, x int8", lambda a, x: a * x, (2, i8)),
+        ("x + a, a a Python int, x uint8", lambda a, x: x + a, (100, u8)),
+        ("x * a + a, a a Python float, x float16", lambda a, x: x * a + a, (1.1, h)),
+        ("where(x > 0, x * a, x - a), Python int, int8", lambda a, x: jnp.where(x > 0, x * a, x - a), (3, i8)),
+        ("cond on the scalar, branches multiply by it", lambda a, x: jax.lax.cond(a > 1, lambda: x * a, lambda: x + a), (2, i8)),
+        ("closed-over int8 constant times a Python int", lambda a: c8 * a, (3,)),
+        ("scan carrying the scalar product", lambda a, x: jax.lax.scan(lambda c, y: (c, y * a), 0, x)[1], (2, i8)),
+        ("sum of a * x (reduction dtype)", lambda a, x: jnp.sum(a * x), (2, i8)),
+    ]
+
+
+def dtype_probe(i):
+    """None if probe i gives the same outputs (dtype and values) through the interpreter as ordinary evaluation"""
+    import numpy as np
+    import jax.tree_util as jtu
+    from genjax._src.core.compiler.interpreters.stateful import stateful
+    Null, _, _ = E._handlers()
+    name, f, args = dtype_probes()[i]
+    want = jtu.tree_leaves(f(*args))
+    got = jtu.tree_leaves(stateful(f)(Null(), *args))
+    if len(want) != len(got):
+        return f"{name}: {len(got)} outputs, ordinary evaluation gives {len(want)}"
+    for w, g in zip(want, got):
+        w, g = np.asarray(w), np.asarray(g)
+        if w.dtype != g.dtype or w.shape != g.shape or not np.array_equal(w, g, equal_nan=True):
+            return f"{name}: interpreter returns {g.dtype} {g.tolist()}, ordinary evaluation {w.dtype} {w.tolist()}"
+    return None
+
+
 def replay(case):
     E.worker_init()
+    if "dtype_probe" in case:
+        why = dtype_probe(case["dtype_probe"])
+        print(f"stateful(f)(null handler): {why or 'outputs equal ordinary evaluation'}")
+        return why is None
     why = oracle_case(case)
     print(f"stateful(f)(null handler, {case['vals']}): {why or 'outputs equal ordinary evaluation'}")
     return why is None
